@@ -29,6 +29,10 @@ def corpus():
         "scn 2 Pe/L1 -",                 # setup that panics: the setup sample must be labelled fail
         "scn 2 Q/L1 -",
         "scn.counts 4 120 7",
+        # whole runs: an earlier run of ANOTHER scenario on the same metrics instance; iteration cleanups that report errors
+        "run prop=C16 mode=users conc=3 dur=300 body=2 maxit=20 failevery=3 prerun=1",
+        "run prop=C16 mode=constant rate=5/50ms dur=300 conc=3 body=5 failevery=4 cleanupfail=3",
+        "run prop=C16 mode=users conc=2 dur=300 body=2 maxit=12 cleanupfail=2 prerun=1",
     ]
 
 
@@ -55,6 +59,10 @@ def generate(rng, tier):
     out += [_scn.case(rng, setup_fail=0.5, ncomp=1) for _ in range(n // 3)]
     for _ in range({"quick": 2, "thorough": 20, "search": 6}[tier]):
         out.append("scn.counts %d %d %d" % (rng.choice([1, 4, 8]), rng.randint(50, 300), rng.randint(1, 10**6)))
+    for _ in range({"quick": 4, "thorough": 40, "search": 10}[tier]):
+        out.append("run prop=C16 mode=%s dur=300 conc=%d body=%d maxit=%d failevery=%d%s%s" % (
+            rng.choice(["users", "constant rate=6/50ms"]), rng.choice([1, 3]), rng.choice([0, 3]), rng.randint(5, 40), rng.choice([0, 2, 5]),
+            rng.choice(["", " prerun=1"]), rng.choice(["", " cleanupfail=%d" % rng.randint(1, 4)])))
     return out
 
 
@@ -79,6 +87,8 @@ def distribution(recs):
                 ks = [bytes.fromhex(p.split("=")[0]).decode() if p.split("=")[0] != "-" else "" for p in body.split(";")]
                 d["labels_total"] += len(ks)
                 d["prefix_key_pairs"] += sum(1 for a in ks for b in ks if a != b and b.startswith(a))
+        elif c.startswith("run "):
+            d["whole_runs"] = d.get("whole_runs", 0) + 1
         elif c.startswith("scn "):
             d["scenario_runs"] += 1
             d["failed_setups"] += "sf=1" in r["impl"]
